@@ -3,6 +3,9 @@ From Coq Require Import List ZArith Bool Permutation.
 From TC.Lib Require Import GoHeap.
 From TC.Model Require Import GStack.
 From TC.Proofs Require Import GStackProofs.
+From TC.Lib Require Conc.
+From TC.Gen Require LockSkeleton_gen.
+From TC.Proofs Require GStackLockset.
 Import ListNotations.
 
 Section C11.
@@ -42,6 +45,13 @@ Section C11.
   Proof. exact (gstack_conc_pop_min ls c c'). Qed.
 End C11.
 
+(* Race freedom: the lock skeleton REGENERATED from storage/genericStack.go on every run (which access to
+   stack.entries happens under which mode of mux) passes the lockset check, hence for every schedule of any
+   number of goroutines no two accesses to the heap array conflict (fine-grained RWMutex semantics of
+   Lib/Conc.v).  This is what justifies treating each critical section as one atomic step above. *)
+Theorem C11_race_free : Conc.race_free LockSkeleton_gen.gstack_skeleton.
+Proof. exact (GStackLockset.gstack_race_free (eq_refl : GStackLockset.gstack_lockset_ok = true)). Qed.
+
 (* non-vacuity *)
 Example C11_ex_run :
   snd (run 0%Z init [Push 10; Push 20; Push 30; Peek 2; Pop; Peek 1; Values; Pop; Pop; Pop; Len; Push 5]%Z)
@@ -56,3 +66,4 @@ Print Assumptions C11_refines_queue.
 Print Assumptions C11_ids.
 Print Assumptions C11_conc_safe.
 Print Assumptions C11_conc_pop_min.
+Print Assumptions C11_race_free.
